@@ -28,7 +28,11 @@ def parse(text: str, **options: t.Any) -> Date | Time | DateTime | Duration:
     # Use the mock now value if it exists
     options["now"] = options.get("now")
 
-    return _parse(text, **options)
+    try:
+        return _parse(text, **options)
+    except OverflowError as e:
+        # Values that cannot be represented (e.g. an interval ending after year 9999)
+        raise ParserError(f"Unable to parse string [{text}]: {e}")
 
 
 def _parse(
@@ -70,7 +74,7 @@ def _parse(
             duration = parsed.duration
 
             if parsed.start is not None:
-                dt = pendulum.instance(parsed.start, tz=options.get("tz", UTC))
+                dt = _as_datetime(parsed.start, **options)
 
                 return pendulum.interval(
                     dt,
@@ -86,9 +90,7 @@ def _parse(
                     ),
                 )
 
-            dt = pendulum.instance(
-                t.cast(datetime.datetime, parsed.end), tz=options.get("tz", UTC)
-            )
+            dt = _as_datetime(t.cast(datetime.datetime, parsed.end), **options)
 
             return pendulum.interval(
                 dt.subtract(
@@ -132,3 +134,12 @@ def _parse(
             raise ParserError("Duration is too large")
 
     raise NotImplementedError
+
+
+def _as_datetime(value: datetime.date, **options: t.Any) -> DateTime:
+    # A date only endpoint is the start of that day:
+    # a duration with time components can then be applied to it
+    if not isinstance(value, datetime.datetime):
+        value = datetime.datetime(value.year, value.month, value.day)
+
+    return pendulum.instance(value, tz=options.get("tz", UTC))
